@@ -1,4 +1,222 @@
-import Kap.Basic
+/-
+Driver for C05: reads the cases produced by the Go harness (which ran the REAL code in child processes),
+and for every op line
+  * evaluates the property (Kap/Spec/C05.lean) on the OBSERVED outcome            → SPECFAIL
+  * compares the observed outcome with the model's prediction (Kap/Model/C05.lean,
+    instantiated with the facts extracted from the source, Kap/Gen/C05.lean)      → MISMATCH
+-/
+import Kap.Spec.C05
+import Kap.Gen.C05
+open Kap Kap.C05
 
-/-- Driver for property C05 (replaced by the property's driver). -/
-def main : IO Unit := Kap.driverMain (fun _ _ => .badop "driver not implemented")
+namespace Kap.C05.Drv
+
+def parseCls (tok : String) : Option Cls :=
+  if tok == "-" then some Cls.none else do
+    let ents ← (tok.splitOn ",").mapM (fun e =>
+      match e.splitOn ":" with
+      | [h, k] => do
+        let r ← h.toList.foldlM (fun acc ch => do let v ← hexVal ch; pure (acc * 16 + v)) 0
+        pure (r, k)
+      | _ => none)
+    let look (k : String) (r : Nat) : Bool := ents.any (fun e => e.1 == r && e.2 == k)
+    pure ⟨look "L", look "D", look "S"⟩
+
+def parseTok (s : String) : Option Tok :=
+  match s.splitOn ":" with
+  | [t, p, l] => do
+    let t ← t.toNat?; let p ← p.toInt?
+    if l == "e" then pure ⟨t, p, none⟩ else do let l ← l.toInt?; pure ⟨t, p, some l⟩
+  | _ => none
+
+def parseLexObs (obs : List String) : Option LexObs :=
+  match obs with
+  | ["X", how] => some (.died how)
+  | "T" :: rest =>
+    match rest.reverse with
+    | fin :: toksRev => do
+      let ts ← toksRev.reverse.mapM parseTok
+      if fin == "C" then pure (.toks ts true) else if fin == "O" then pure (.toks ts false) else none
+    | [] => none
+  | _ => none
+
+def renderTok (t : Tok) : String :=
+  match t.len with
+  | some l => s!"{t.typ}:{t.pos}:{l}"
+  | none => s!"{t.typ}:{t.pos}:e"
+
+def stName : St → String
+  | .token => "token" | .unary => "unary" | .binopSp => "binopSp" | .binopMain => "binopMain"
+  | .regexOpSp => "regexOpSp" | .ident => "ident"
+  | .number fd first => s!"number{boolTok fd}{boolTok first}"
+  | .reference => "reference"
+  | .strOuter _ => "strOuter"
+  | .strInner _ t => s!"strInner{t}"
+  | .regexStart => "regexStart" | .regexBody => "regexBody"
+  | .commentStart => "commentStart" | .commentBody => "commentBody" | .commentNL => "commentNL"
+
+/-- States visited by the model run (coverage only). -/
+def visited (c : Ctx) : Nat → Lx → St → List String → List String
+  | 0, _, _, acc => acc
+  | k + 1, l, s, acc =>
+    let acc := if acc.contains (stName s) then acc else stName s :: acc
+    match step c l s with
+    | .cont l' s' => if l'.trapped then acc else visited c k l' s' acc
+    | .done _ => acc
+
+structure Acc where
+  br : List String := []
+  nt : Bool := false
+
+def Acc.add (a : Acc) (bs : List String) : Acc :=
+  { a with br := bs.foldl (fun acc b => if acc.contains b then acc else b :: acc) a.br }
+
+def bodyOf : String → Option Body
+  | "ret-nil" => some (.ret false)
+  | "ret-err" => some (.ret true)
+  | "panic-err" => some (.panics .errorVal)
+  | "panic-str" => some (.panics .other)
+  | "panic-rt" => some (.panics .runtimeErr)
+  | "panic-div" => some (.panics .runtimeErr)
+  | _ => none
+
+def parseResp (t : String) : Option Resp :=
+  match t.toList with
+  | ['K'] => some .keepalive | ['I'] => some .info | ['T'] => some .init | ['S'] => some .snapshot
+  | ['R'] => some .restore | ['X'] => some .error | ['P'] => some .point | ['E'] => some .endB
+  | ['N'] => some .nilMsg | ['G'] => some .garbage
+  | 'B' :: rest => (String.ofList rest).toInt?.map .begin
+  | 'H' :: rest => (String.ofList rest).toNat?.map .huge
+  | _ => none
+
+def renderOuts (o : List UOut) : String :=
+  if o.isEmpty then "-" else ",".intercalate (o.map fun | .p => "p" | .b n => s!"b{n}")
+
+def renderFrame : Frame → String
+  | .msg off => s!"m{off}" | .eof => "eof" | .vtrunc => "vtrunc" | .vover => "vover"
+  | .ueof => "ueof" | .big => "big" | .trap => "panic"
+
+/-- Data-point kinds on which the evaluator itself traps (owned by C04: `/`, `%` by an integer zero,
+`strSubstring` bounds). Used only by the recorded deviation clause `evaluator-trap-kills-task`. -/
+def evaluatorTrapKinds : List String := ["divzero", "modzero", "substr", "substrhi", "substrlo", "durzero"]
+
+def cmpFrames : List String → List String → Bool
+  | [], [] => true
+  | x :: xs, y :: ys =>
+    if x == y then cmpFrames xs ys
+    else (y.startsWith "perr" && x == "m" ++ (y.drop 4).toString && ys.isEmpty)
+  | _, _ => false
+
+def fail (r : String × String) : Verdict := .specfail r.1 r.2
+
+def judgeLine (a : Acc) (l : String) : Except Verdict Acc := do
+  let (op, obs) := splitObs (tokens l)
+  match op with
+  | ["lex", inp, cls] =>
+    let some bs := unescRaw inp | throw (.badop l)
+    let some cl := parseCls cls | throw (.badop l)
+    let c : Ctx := { inp := bs.map (·.toNat), cls := cl, fixed := Gen.peekRestoresWidth }
+    let some o := parseLexObs obs | throw (.badop l)
+    if let some r := lexSpec c o then throw (fail r)
+    let m := lexRun c
+    let mt := match m with | .done ts => ts | .trap ts => ts | .fuel ts => ts
+    match o, m with
+    | .toks ts true, .done _ =>
+      if ts != mt then
+        throw (.mismatch s!"lex {inp}: model {" ".intercalate (mt.map renderTok)} observed {" ".intercalate (ts.map renderTok)}")
+    | _, _ => throw (.mismatch s!"lex {inp}: model does not end in done although the implementation did")
+    let br := (visited c (lexFuel c) {} .token []).map (fun s => "st." ++ s)
+    let br := br ++ (mt.map (fun t => s!"tok.{t.typ}"))
+    pure { (a.add br) with nt := a.nt || mt.length ≥ 3 }
+  | ["parse", kind, inp, cls] =>
+    let some bs := unescRaw inp | throw (.badop l)
+    let some cl := parseCls cls | throw (.badop l)
+    let c : Ctx := { inp := bs.map (·.toNat), cls := cl, fixed := Gen.peekRestoresWidth }
+    let (res, leak) ← match obs with
+      | ["X", how] => pure (how, 0)
+      | [r, n] => match n.toNat? with | some n => pure (r, n) | none => throw (.badop l)
+      | _ => throw (.badop l)
+    if let some r := defineSpec res leak then throw (fail r)
+    -- tie: a scanner error token can only surface as an error of the entry point
+    let lexErr := match lexRun c with | .done ts => endsInError ts | _ => true
+    if lexErr && res != "err" then throw (.mismatch s!"parse {kind} {inp}: lexer model ends in an error token but the entry point answered {res}")
+    -- tie: the lexer goroutine is gone afterwards, however many tokens the parser took
+    if !lexerGoroutineExits c Gen.stopParseDrains 0 then
+      throw (.mismatch s!"parse {kind} {inp}: model says the lexer goroutine stays blocked, none was observed")
+    pure ((a.add [s!"parse.{kind}.{res}"]))
+  | ["getnode", tag] =>
+    let some tag := unesc tag | throw (.badop l)
+    let res := match obs with | ["X", how] => how | [r] => r | _ => "?"
+    if let some r := defineSpec res 0 then throw (fail r)
+    match getNode Gen.getNodeTags Gen.getNodeDefaultErr tag with
+    | .unmarshal => pure (a.add ["getnode.known"])
+    | .error => if res != "err" then throw (.mismatch s!"getnode {tag}: model err observed {res}") else pure (a.add ["getnode.unknown-is-error"])
+    | .trap => throw (.mismatch s!"getnode {tag}: model traps, observed {res}")
+  | ["json", kind, _] =>
+    let (res, leak) ← match obs with
+      | ["X", how] => pure (how, 0)
+      | [r, n] => match n.toNat? with | some n => pure (r, n) | none => throw (.badop l)
+      | _ => throw (.badop l)
+    if let some r := defineSpec res leak then throw (fail r)
+    pure (a.add [s!"json.{kind}.{res}"])
+  | ["nodestart", body] =>
+    let some b := bodyOf body | throw (.badop l)
+    let res := match obs with | ["X", how] => how | [r] => r | _ => "?"
+    if let some r := nodeSpec b res then throw (fail r)
+    let m := match runDeferred Gen.nodeStart b with
+      | .returns false => "ok" | .returns true => "err" | .propagates _ => "crash"
+    if m != res then throw (.mismatch s!"nodestart {body}: model {m} observed {res}")
+    pure { (a.add [s!"nodestart.{body}"]) with nt := true }
+  | ["udfread", inp, _k] =>
+    let some bs := unescRaw inp | throw (.badop l)
+    if let some r := peerSpec obs then throw (fail r)
+    let m := (readAll true (bs.map (·.toNat))).map renderFrame
+    -- the protobuf decoder is not modelled: a complete frame may be reported as `perr<off>` (and ends the loop)
+    if !cmpFrames m obs then throw (.mismatch s!"udfread {inp}: model {m} observed {obs}")
+    pure { (a.add (m.map (fun s => "frame." ++ String.ofList (s.toList.takeWhile (fun ch => !ch.isDigit))))) with nt := a.nt || m.length ≥ 2 }
+  | "udfsrv" :: resps =>
+    let some rs := resps.mapM parseResp | throw (.badop l)
+    if let some r := peerSpec obs then throw (fail r)
+    let (mo, mf) := udfRun true none rs
+    let ms := [renderOuts mo, match mf with | .clean => "ok" | .err => "err" | .trap => "crash"]
+    if ms != obs then throw (.mismatch s!"udfsrv: model {ms} observed {obs}")
+    let br := rs.map (fun r => match r with
+      | .begin n => if n < 0 then "udf.begin-negative" else if n > 1000000 then "udf.begin-huge" else "udf.begin"
+      | .endB => "udf.end" | .point => "udf.point" | .nilMsg => "udf.nil" | .garbage => "udf.garbage"
+      | .huge _ => "udf.huge-frame" | .error => "udf.error" | _ => "udf.ctl")
+    let br := br ++ (if mo.any (fun o => match o with | .b _ => true | _ => false) then ["udf.batch-out"] else [])
+    pure { (a.add br) with nt := a.nt || rs.length ≥ 3 }
+  | ["live", node, bad] =>
+    match obs with
+    | ["X", how] =>
+      if evaluatorTrapKinds.contains bad && node != "boom" then
+        throw (.known "evaluator-trap-kills-task" s!"live {node} {bad}: process {how}")
+      else throw (.specfail "process-survives" s!"live {node} {bad}: {how}")
+    | [cn, te, by_] =>
+      let some cn := cn.toNat? | throw (.badop l)
+      let some te := te.toNat? | throw (.badop l)
+      let some by_ := by_.toNat? | throw (.badop l)
+      match liveSpec (node == "boom") cn 4 te by_ 5 with
+      | some r =>
+        if evaluatorTrapKinds.contains bad && node != "boom" && (r.1 == "keeps-processing-after-bad-point" || r.1 == "bad-point-does-not-kill-task") then
+          throw (.known "evaluator-trap-kills-task" s!"live {node} {bad}: {r.2}")
+        else throw (fail r)
+      | none =>
+        -- model: the node runner turns a panicking node into a task error (extracted shape)
+        if node == "boom" then
+          match runDeferred Gen.nodeStart (.panics .other) with
+          | .returns true => pure ()
+          | _ => throw (.mismatch "live boom: model says the panic is not turned into an error, the implementation did")
+        pure { (a.add [s!"live.{node}", s!"bad.{bad}"]) with nt := true }
+    | _ => throw (.badop l)
+  | _ => throw (.badop l)
+
+def judge (_id : String) (lines : Array String) : Verdict :=
+  let r := lines.foldl (fun (acc : Except Verdict Acc) l => acc >>= fun a => judgeLine a l) (pure {})
+  match r with
+  | .ok a => .ok a.nt a.br.reverse
+  | .error v => v
+
+end Kap.C05.Drv
+
+def main : IO Unit := Kap.driverMain Kap.C05.Drv.judge
